@@ -79,7 +79,7 @@ func runC01(o *cli.Opts, run *evid.Run) {
 		if !auditReport(run, dkey, sys) {
 			auditOK = false
 		}
-		strat := indexStrategies(dm.d, ref.R)
+		strat := append(indexStrategies(dm.d, ref.R), aliasStrategies(ref.R)...)
 		type job struct {
 			class string
 			k     int
@@ -125,7 +125,7 @@ func runC01(o *cli.Opts, run *evid.Run) {
 		if !auditReport(run, dkey, sys) {
 			auditOK = false
 		}
-		strat := append(indexStrategies(dm.d, ref.R), indexStrategies(32, ref.R)...)
+		strat := append(append(indexStrategies(dm.d, ref.R), indexStrategies(32, ref.R)...), aliasStrategies(ref.R)...)
 		type job struct {
 			class string
 			k     int
